@@ -634,7 +634,7 @@ static void inv_after(struct context_data *ctx)
 		struct channel_data *xc = &p->xc_data[c];
 		int present = xc->smp >= 0 && xc->smp < mod->smp && xc->smp < MAXSMP;
 		struct xmp_sample *x = present ? &mod->xxs[xc->smp] : NULL;
-		if (xc->invloop.speed < 0 || xc->invloop.speed > 15 || xc->ins >= mod->ins || xc->ins < 0)
+		if (xc->invloop.speed < 0 || xc->invloop.speed > 15 || xc->ins >= mod->ins)	/* the player's own condition: a negative instrument passes */
 			continue;
 		if (xc->invloop.speed == 0 && inv_count0[c] < 128)
 			continue;	/* effect off and nothing pending: update_invloop cannot do anything */
